@@ -176,6 +176,12 @@ func TestC18Conns(t *testing.T) {
 			fmt.Fprintln(w, runConns(seed, rounds, n))
 			return
 		}
+		if len(f) == 3 && f[0] == "sweep" {
+			nA, _ := strconv.Atoi(f[1])
+			rounds, _ := strconv.Atoi(f[2])
+			fmt.Fprintln(w, runSweep(nA, rounds))
+			return
+		}
 		fmt.Fprintln(w, "bad-op")
 	})
 	if err != nil {
